@@ -787,15 +787,28 @@ def check_naive(ctx: Ctx, only: Optional[str] = "NaiveThresholdMatching"):
                 #     i.e. (not cp and not cr and beats) => PC   -- PC must not be stronger than needed
                 if dec_key and cmp_key:
                     pcf = lambda a, prem=prem: all(p(a) for p in prem)
+                    core = {"cp", "cr", m2o, dec_key, cmp_key[0]}
+
+                    def beyond_core(v_, w_):
+                        # a counter-row that needs facts this rule does not know to be compatible (lengths of lists,
+                        # counters of an early exit) may be infeasible: where the matcher's run (R03.4g) found the
+                        # assignment maximal on every scenario, such a row is not reported
+                        return v_ is False and gv is True and isinstance(w_, dict) and any(k not in core for k in w_)
+
                     v, w = implication(form, [lambda a: not a["cp"], lambda a: not a["cr"], beats], pcf, atoms.feasible)
-                    ctx.decide("R03.4d", f, c, construct, "an eligible pair whose partners are both unassigned reaches the assignment (maximality)", v, {"row": w, "path_condition": pc_txt} if w else {"path_condition": pc_txt})
+                    if not beyond_core(v, w):
+                        ctx.decide("R03.4d", f, c, construct, "an eligible pair whose partners are both unassigned reaches the assignment (maximality)", v, {"row": w, "path_condition": pc_txt} if w else {"path_condition": pc_txt})
                     if m2o:
                         # with many-to-one, an eligible pair with a free prediction is assigned even if the reference is taken
                         v, w = implication(form, [lambda a: not a["cp"], lambda a, m2o=m2o: a[m2o], beats], pcf, atoms.feasible)
-                        ctx.decide("R03.4e", f, c, construct, "with allow_many_to_one an eligible pair with an unassigned prediction reaches the assignment", v, {"row": w, "path_condition": pc_txt} if w else {"path_condition": pc_txt})
+                        if not beyond_core(v, w):
+                            ctx.decide("R03.4e", f, c, construct, "with allow_many_to_one an eligible pair with an unassigned prediction reaches the assignment", v, {"row": w, "path_condition": pc_txt} if w else {"path_condition": pc_txt})
         # R03.5: the loop visits every candidate: no break / return / raise inside the loop
         bad = [n for n in ast.walk(loop) if isinstance(n, (ast.Break, ast.Return, ast.Raise))]
-        ctx.decide("R03.5", f, loop, f"{f.qual}:loop", "candidate loop has no break/return/raise (every candidate is considered; terminates)", not bad, {"exits": [f"{type(b).__name__}@{b.lineno}" for b in bad]} if bad else None)
+        # leaving the loop early is harmless exactly if no later candidate could still be taken: that is what the
+        # matcher's run decides (R03.4g, every ordering and threshold outcome); without it an early exit stands as reported
+        early_ok = bool(bad) and gv is True and all(isinstance(b, ast.Break) for b in bad)
+        ctx.decide("R03.5", f, loop, f"{f.qual}:loop", "every candidate is considered: the candidate loop has no break/return/raise, or leaves early only where the run of the matcher shows that nothing more can be taken", (not bad) or early_ok, {"exits": [f"{type(b).__name__}@{b.lineno}" for b in bad]} if bad else None)
         # the returned value is the label map filled in the loop
         rets = [n for n in walk_no_nested(f.node) if isinstance(n, ast.Return)]
         lm_vars = {t.id for n in walk_no_nested(f.node) if isinstance(n, ast.Assign) and isinstance(n.value, ast.Call) and dotted(n.value.func) == "InstanceLabelMap" for t in n.targets if isinstance(t, ast.Name)}
@@ -1065,6 +1078,12 @@ def greedy_run(ctx: Ctx, cls, f):
                 scen = {"order": [pairs[i] for i in order], "meets_threshold": [beats.get(i) for i in order], "allow_many_to_one": m2o}
                 if other:
                     return None, {"why": f"matcher splits on {other[:3]}", **scen}, runs
+                # the candidates arrive best score first (R03.2) and the threshold test is monotone in the score:
+                # once a candidate fails it, none of the later ones can pass - other outcomes cannot occur
+                seq_ = [beats[i] for i in order if i in beats]
+                if any(b and not all(seq_[:k]) for k, b in enumerate(seq_)):
+                    runs -= 1
+                    continue
                 want = {}
                 for i in order:
                     r, p_ = pairs[i]
@@ -1073,7 +1092,8 @@ def greedy_run(ctx: Ctx, cls, f):
                     if beats.get(i, True) and p_ not in want and (m2o or r not in want.values()):
                         want[p_] = r
                 # a candidate whose test was skipped must indeed have been blocked
-                blocked_ok = prefiltered or all(pairs[i][1] in want or (not m2o and pairs[i][0] in want.values()) for i in order if i not in beats)
+                # ... or comes after a candidate that failed the threshold (so it fails as well), or after every prediction was assigned
+                blocked_ok = prefiltered or all(pairs[i][1] in want or (not m2o and pairs[i][0] in want.values()) or any(beats.get(j) is False for j in order[: order.index(i)]) for i in order if i not in beats)
                 if out.kind != "return" or not isinstance(out.value, Obj):
                     return False, {"outcome": f"{out.kind} {out.exc or ''}".strip(), **scen}, runs
                 got = out.value.attrs.get(api["dict_attr"])
